@@ -808,7 +808,8 @@ class Table(Vector):
 		# first column is written, not after the columns in front of the shared one were
 		for col_idx in target_indices:
 			col = self._underlying[col_idx]
-			_ALIAS_TRACKER.check_writable(col, id(col._underlying))
+			if col._underlying:   # (zero rows: all columns hold the one empty tuple, see Vector.__setitem__)
+				_ALIAS_TRACKER.check_writable(col, id(col._underlying))
 
 		# --- 3. Handle Assignment ---
 		
